@@ -14,3 +14,9 @@ package local
 //@   modifies ghost.lastJSON
 //@   after[C12] json.Marshal : ghost.lastJSON = ret0
 //@   before[C12] acctLogger.Printf : len(arg2) == 1 && arg2[0].(bytesT) == ghost.lastJSON
+
+// C09: every accounter handed to a scope is a new object; only the event logger and the
+// accounting sink (the destination every record is meant to reach) are shared.
+//@ func (a Accounter) New(options map[string]string) (res tq.Handler)
+//@   props C09
+//@   ensures[C09] res != nil && ownState(res, "loggerProvider", "sink")
